@@ -7,29 +7,21 @@ theorem cutoff_fixed_ok (cfg : Cfg) (hz : cfg.zeroCutoffRuns = false) (hb : cfg.
     0 < c ∧ i.pruned ≤ c ∧ c ≤ i.height ∧ setupOk i c = true := by
   unfold cutoff at h
   rw [hp] at h
-  simp only [hz, hb, Bool.not_false, Bool.true_and] at h
-  by_cases hge : min i.l1 i.height < i.retained
-  · simp [hge] at h
-  · simp only [hge, if_false] at h
-    have hpiv : min i.l1 i.height ≤ i.height := Nat.min_le_right _ _
-    by_cases hgt : i.pruned > min i.l1 i.height - i.retained
-    · simp only [hgt, decide_true, if_true] at h
-      by_cases h0 : i.pruned = 0
-      · simp [h0] at h
-      · simp only [beq_iff_eq, h0, if_false] at h
-        injection h with h
-        subst h
-        refine ⟨by omega, Nat.le_refl _, hpr, ?_⟩
-        simp [setupOk, restorerSeed, h0]; omega
-    · simp only [hgt, decide_false, Bool.false_eq_true, if_false] at h
-      by_cases h0 : min i.l1 i.height - i.retained = 0
-      · simp [h0] at h
-      · simp only [beq_iff_eq, h0, if_false] at h
-        injection h with h
-        subst h
-        refine ⟨by omega, by omega, by omega, ?_⟩
-        simp [setupOk, restorerSeed, h0]
-        constructor <;> omega
+  simp only [hz, hb, Bool.not_false, Bool.true_and, Bool.false_eq_true, if_false] at h
+  have hpiv : min i.l1 i.height ≤ i.height := Nat.min_le_right _ _
+  generalize hf : max (if min i.l1 i.height < i.retained then 0 else min i.l1 i.height - i.retained) i.pruned = fl at h
+  have hfl : i.pruned ≤ fl ∧ fl ≤ i.height := by
+    rw [← hf]
+    refine ⟨Nat.le_max_right _ _, Nat.max_le.mpr ⟨?_, hpr⟩⟩
+    split <;> omega
+  by_cases h0 : fl = 0
+  · simp [h0] at h
+  · simp only [beq_iff_eq, h0, if_false] at h
+    injection h with h
+    subst h
+    refine ⟨by omega, hfl.1, hfl.2, ?_⟩
+    simp [setupOk, restorerSeed, h0, hfl.1]
+    omega
 
 theorem cutoff_partial (cfg : Cfg) (i : In) (c : Nat) (_h : cutoff cfg i = some c)
     (hc : 0 < c) (hp : i.pruned ≤ c) (hh : c ≤ i.height) : setupOk i c = true := by
